@@ -80,3 +80,15 @@ reg('C04',
     'Sums are checked only for molecules in which every atom has a valence state (formula undefined otherwise).',
     'complete enumeration of the finite centre-environment space on the real implementation vs reference valence models',
     'DESIGN.md s5 C04')
+
+reg('C19',
+    'The configuration grid is enumerated completely: PYTHONHASHSEED in {0,1,2,4242,VERIF_SEED+7} x a fresh interpreter per cell x input order '
+    '{forward, reversed} x evaluation mode {first, second (cached), after flush_cache(), copy taken before, copy taken after}. For every input '
+    '(corpus stride, the documented functional-group inputs, an organometallic combinator, a ring/double-bond stereo family, D(<=5,1), SMARTS '
+    'queries) digests of canonical strings, atom orderings, ring sets, components, fingerprints and fragment dictionaries, ordered match lists, '
+    'pack bytes, atom labels and the results of canonicalize/standardize/standardize_charges/neutralize/kekule/thiele/explicify (object vs its '
+    'copy vs after flush) must coincide over the whole grid. Digests include dict and set iteration order.',
+    'Trusted: five fixed seeds stand for all hash seeds; hash(mol) is excluded (string hashing is seed dependent by design). pack bytes come from '
+    'the pyx model. A violation is replayed by re-running the two grid cells involved.',
+    'complete enumeration of a configuration grid (hash seed x process x order x cached/uncached/copy) on the real implementation',
+    'DESIGN.md s5 C19')
